@@ -127,7 +127,7 @@ void dump(const Basic &b, std::string &out)
 #endif
 #ifdef HAVE_SYMENGINE_MPC
         case SYMENGINE_COMPLEX_MPC: {
-            mpc_srcptr c = down_cast<const ComplexMPC &>(b).i.get_mpc_t();
+            mpc_srcptr c = down_cast<const ComplexMPC &>(b).as_mpc().get_mpc_t();
             out += "[\"ComplexMPC\",";
             dmpfr(mpc_realref(c), out);
             out += ",";
